@@ -324,6 +324,35 @@ def run(ctx):
                 bad(w, 'after an in-place step a timestamp does not compare equal to a fresh timestamp of the same value'); break
     cov['in_place_steps'] = ninplace
 
+    # ---- a timestamp DERIVED from a rendered one (t + d, t - d, d = 0 included): the new object renders and compares as a fresh
+    # timestamp of its value, and the operand keeps its own value and rendering.  (Own sub-stream: the generator state is put back.)
+    _st = rng.getstate()
+    nderived = 0
+    for _ in range(1500 if ctx.thorough else 300):
+        v = round(rng.uniform(LO, HI), 3) + rng.choice([0.0, 0.0004, 0.0005, 0.0009])
+        t = timestamp(v)
+        for _ in range(rng.randrange(1, 4)):
+            before = (t.value, str(t), repr(t), t.utc)                # fills whatever caches there are
+            d = rng.choice([0, 0.0006, -0.0004, 0.001, 0.0015, 2.0, -61.0, 3600.0, 86400.0, 1e-6])
+            n = (t + d) if rng.random() < 0.5 else (t - (-d))
+            nderived += 1
+            fresh = timestamp(n.value)
+            w = dict(start=repr(v), operand_rendering=before[1], step=d, value=repr(n.value), rendering=str(n), fresh_rendering=str(fresh))
+            if abs(n.value - (before[0] + d)) > 1e-6:
+                bad(w, 'timestamp + seconds does not hold the sum'); break
+            if str(n) != str(fresh) or n.utc != fresh.utc or repr(n) != repr(fresh):
+                bad(w, 'a timestamp obtained by + / - from a rendered one renders differently from a fresh timestamp of the same value'); break
+            if (n != fresh) or (n < fresh) or (n > fresh):
+                bad(w, 'a timestamp obtained by + / - does not compare equal to a fresh timestamp of the same value'); break
+            if (t.value, str(t), repr(t), t.utc) != before:
+                bad(w, 'timestamp + seconds changed its operand'); break
+            back = timestamp(str(n))                                   # render (default: UTC, ms) then parse: within the rendering precision
+            if abs(back.value - n.value) > 0.00051:
+                bad(dict(w, parsed=repr(back.value)), 'render then parse returned a different instant'); break
+            t = n
+    cov['derived_steps'] = nderived
+    rng.setstate(_st)
+
     # ---- durations
     durs = [(0, 0), (0, 1), (0, 999), (0, 1000), (0, 1001), (1, 0), (1, 1000), (1, 1), (59, 999999), (60, 0), (3723, 4000), (31557600, 0),
             (31557600 * 3 + 604800 * 4 + 86400 * 6 + 3600 * 18 + 7, 16300), (1, 15700), (0, 1001), (86400, 500000), (604800, 250)]
